@@ -1251,7 +1251,11 @@ class GroupBy:
         ddof: int = 1,
         observed_only: bool = True,
     ):
-        return GroupBy.var(**locals()) ** 0.5
+        var = GroupBy.var(**locals())
+        if isinstance(var, pl.DataFrame):
+            # polars frames have no ** operator
+            return var.select(pl.all().sqrt())
+        return var ** 0.5
 
     @groupby_method(_GB_REDUCTION_DOCSTRING)
     def first(
